@@ -158,6 +158,13 @@ Fixpoint find_id {A} (id : nat * nat) (l : list (nat * nat * A)) : option A :=
    A point is only ever placed immediately before some response (this loses
    no linearization).  Operations that never respond may stay pending.
    (if-then-else instead of && / ||: vm_compute is call-by-value.) *)
+(* exists with a lazily evaluated predicate (vm_compute is call-by-value) *)
+Fixpoint lazy_exists {A} (k : A -> bool) (l : list A) : bool :=
+  match l with
+  | [] => false
+  | y :: l' => if k y then true else lazy_exists k l'
+  end.
+
 Fixpoint lin_search (fuel : nat) (d : store)
          (pending : list (nat * nat * op)) (linned : list (nat * nat * res))
          (evs : list hev) {struct fuel} : bool :=
@@ -184,17 +191,14 @@ Fixpoint lin_search (fuel : nat) (d : store)
                 then true
                 else
                 (* ... or some other pending operation's point first *)
-                  (fix any (l : list (nat * nat * op)) : bool :=
-                     match l with
-                     | [] => false
-                     | (id, oy) :: l' =>
-                         if (if op_key_eqb id (p, i) then false
-                             else lin_search f (reg_apply oy d)
-                                             (remove_id id pending)
-                                             ((id, reg_res oy d) :: linned)
-                                             evs)
-                         then true else any l'
-                     end) pending
+                  lazy_exists
+                    (fun y =>
+                       if op_key_eqb (fst y) (p, i) then false
+                       else lin_search f (reg_apply (snd y) d)
+                                       (remove_id (fst y) pending)
+                                       ((fst y, reg_res (snd y) d) :: linned)
+                                       evs)
+                    pending
             end
         end
     end
@@ -202,3 +206,50 @@ Fixpoint lin_search (fuel : nat) (d : store)
 
 Definition lin_check (chron : list hev) : bool :=
   lin_search (2 * length chron + 2) empty [] [] chron.
+
+(* well-formed plain history: each process numbers its operations 0,1,2...,
+   invokes only when idle, and a response names the invoked operation *)
+Fixpoint kvs_eqb (a b : list (Z * Z)) : bool :=
+  match a, b with
+  | [], [] => true
+  | (k, v) :: a', (k', v') :: b' => (k =? k') && (v =? v') && kvs_eqb a' b'
+  | _, _ => false
+  end.
+
+Definition op_eqb (a b : op) : bool :=
+  match a, b with
+  | OSet k v, OSet k' v' => (k =? k') && (v =? v')
+  | OBulk x, OBulk y => kvs_eqb x y
+  | OGet k, OGet k' | OUnset k, OUnset k' => k =? k'
+  | _, _ => false
+  end.
+
+Definition pstatus := (nat * option op)%type.     (* next index, running op *)
+
+Definition set_status (st : nat -> pstatus) (p : nat) (x : pstatus)
+  : nat -> pstatus := fun q => if Nat.eqb q p then x else st q.
+
+Fixpoint wf_run (st : nat -> pstatus) (evs : list hev) : bool :=
+  match evs with
+  | [] => true
+  | HInv p i o :: r =>
+      match st p with
+      | (n, None) => Nat.eqb i n && wf_run (set_status st p (n, Some o)) r
+      | _ => false
+      end
+  | HRes p i o _ :: r =>
+      match st p with
+      | (n, Some o') =>
+          Nat.eqb i n && op_eqb o o' &&
+          wf_run (set_status st p (S n, None)) r
+      | _ => false
+      end
+  | HLin _ _ _ _ :: _ => false
+  end.
+
+Definition wf_hist (chron : list hev) : bool :=
+  wf_run (fun _ => (0%nat, None)) chron.
+
+(* the verdict used on observed histories (chronological) *)
+Definition lin_ok (chron : list hev) : bool :=
+  wf_hist chron && lin_check chron.
